@@ -24,7 +24,7 @@ ASSUMPTIONS = [
     "payload bytes are non-zero; decoys differ from the real file in every byte",
 ]
 BUDGET = {
-    "quick": {"examples": 200, "workers": 8, "time_cap": 80},
+    "quick": {"examples": 300, "workers": 8, "time_cap": 80},
     "thorough": {"examples": 6000, "workers": 14, "time_cap": 900},
 }
 
